@@ -76,3 +76,18 @@ Theorem C16_merge_is_update :
                   match dict_get (rev dc) k with Some v => Some v | None => dict_get da k end.
 Proof. exact ComposeAttrs.merge_spec. Qed.
 Print Assumptions C16_merge_is_update.
+
+(* THE VERTEX-SET READING of the composition (for operands that meet it): the result meets it, every simplex has the
+   points it has in the operand it comes from, and the family of vertex sets of the result is the union of the
+   operands' families *)
+From SV Require VIso2 FlagComplete.
+Theorem C16_composition_meets_the_vertex_set_reading :
+  forall hp a c uid hp' d, vinv a -> vinv c -> compose hp a c None uid = (hp', d, Ok tt) ->
+  vinv d /\ forall s, containsSimplex d s = true -> sameset (basisOf d s) (basisOf (if containsSimplex a s then a else c) s).
+Proof. exact VIso2.compose_vinv. Qed.
+Print Assumptions C16_composition_meets_the_vertex_set_reading.
+Theorem C16_family_of_the_composition_is_the_union :
+  forall hp a c uid hp' d, vinv a -> vinv c -> compose hp a c None uid = (hp', d, Ok tt) ->
+  forall B, FlagComplete.carried d B <-> FlagComplete.carried a B \/ FlagComplete.carried c B.
+Proof. exact VIso2.compose_family. Qed.
+Print Assumptions C16_family_of_the_composition_is_the_union.
